@@ -32,7 +32,13 @@ inductive Sel
   | at (e : EndExpr)                    -- scalar `int` or rank-0 expression (`end - k`): dimension dropped
   | range (b e s : EndExpr)             -- `range(b,e)` (s = `lit 1`) / `stride(b,e,s)`
   | all                                 -- `__`
-  | vec (es : List EndExpr)             -- rank-1 integer expression: its entries (`.fromEnd k` for `end - k`)
+  | vec (es : List EndExpr)             -- rank-1 integer expression: its entries (`.fromEnd k` for `end - k`).
+      -- The entries are those of the index object IN ITS OWN INDEX ORDER: an index vector that is itself a view
+      -- (`idx(stride(0,end,2))`, a reversed `big(stride(5,0,-1))`, a column `IM(__,1)` of an intMatrix) is just another
+      -- entry list — `Array<1,int>::value_with_len_(j,len) = data_[j*offset_[0]]` steps with the view's own offset —
+      -- and so is a `FixedArray<int,false,n>` (its own copy of the accessor, `data_[j]`).  The selector type needs no
+      -- extension; the harness builds such views around the entry list (layout prefix `sOFF.STR|`, `cK.NC|`, `rK.NR|`,
+      -- selector `f:`) and the theorems about `Sel.vec` apply unchanged.
 deriving Repr, DecidableEq
 
 def Sel.isVec : Sel → Bool
